@@ -83,7 +83,7 @@ def credit_monitor(world):
 
 def gen_case(rng, tier):
     from .. import mixgen
-    cfg = mixgen.draw_config(rng, frags=(None, None, 64, 100))
+    cfg = mixgen.draw_config(rng, links_allowed=mixgen.WITH_WS, frags=(None, None, 64, 100))
     specs = []
     iid = 1
     for side in 'cs':
@@ -130,7 +130,7 @@ def gen_case(rng, tier):
 async def _run(rng, cfg, specs):
     from ..pair import Pair
     p = Pair(rng, cfg)
-    p.driver.horizon = 300.0
+    p.driver.horizon = 1.0e5
     await p.start()
     await p.run_specs(specs)
     sids = {}
